@@ -84,7 +84,15 @@ def _replace(eps):
             "q0": "s", "F": ["t"], "eps": eps}
 
 
-TEMPLATES = [_anbn, _pal, _nonempty_stack, _replace]
+def _diamond(eps):
+    # reconverging eps-branches in front of a push/pop core: the same configuration is reached along several eps-paths and has eps-successors of its own
+    return {"Q": ["s", "u1", "u2", "u3", "m", "g", "f"], "S": ["a", "b"], "G": ["X"],
+            "d": [["s", eps, eps, "u1", "X"], ["s", eps, eps, "u2", "X"], ["s", eps, eps, "u3", "X"], ["u1", eps, eps, "m", eps], ["u2", eps, eps, "m", eps],
+                  ["u3", eps, eps, "m", eps], ["m", eps, "X", "g", eps], ["g", "a", eps, "g", "X"], ["g", "b", "X", "f", eps], ["f", eps, eps, "s", eps]],
+            "q0": "s", "F": ["f", "g"], "eps": eps}
+
+
+TEMPLATES = [_anbn, _pal, _nonempty_stack, _replace, _diamond]
 
 
 @st.composite
